@@ -183,8 +183,8 @@ def param_step(got, sp, den, names, ctx, part, bad):
 def run(report, tier):
     apirun.run_config(report, 'MC_C01', observer=observer, report_kinds=('S',), overrides={'Want': '<-MC_WantDV'})
     apirun.run_config(report, 'MC_C01M', observer=observer, report_kinds=('S',), overrides={'Want': '<-MC_WantDV'})
-    if tier == 'thorough':      # one call deeper over a reduced alphabet (3 functions, 2 literals)
-        apirun.run_config(report, 'MC_C01', observer=observer, report_kinds=('S',), overrides=dict({'MaxCalls': 3, 'Fns': '<-MC_FnsSmall', 'ScalarLits': '<-MC_ScalarLitsSmall'}, Want='<-MC_WantDV'), tag='deep')
+    if tier == 'thorough':      # one call deeper over a reduced alphabet (3 functions, 2 literals, operators + * **)
+        apirun.run_config(report, 'MC_C01', observer=observer, report_kinds=('S',), overrides=dict({'MaxCalls': 3, 'Fns': '<-MC_FnsSmall', 'ScalarLits': '<-MC_ScalarLitsSmall', 'SOps': '<-MC_SOpsSmall', 'VOps': '<-MC_VOpsSmall', 'Indices': '<-MC_IndicesSmall'}, Want='<-MC_WantDV'), tag='deep')
     return report.finish(
         rule='every Api program of <= MaxCalls calls with a scalar result: compile_gradient, CompiledExpression.gradient and '
              'compile_jacobian (single row and with the earlier scalars of the program as further rows) for every permutation / '
